@@ -54,6 +54,26 @@ class Obj(Stub):
     `_natives` gives plain values / callables for what the C base class provides; `_ctor` stands for `self.__class__`"""
 
 
+class ClassStub(Stub):
+    """stands for a class of the analysed program or of the standard library: calling it runs `_new`, `isinstance(v, it)`
+    asks `_isa`"""
+
+    def __call__(self, *a, **k):
+        return vars(self)["_new"](*a, **k)
+
+
+def _isinstance(v, c) -> bool:
+    if isinstance(c, tuple):
+        return any(_isinstance(v, x) for x in c)
+    if isinstance(c, ClassStub):
+        return bool(vars(c)["_isa"](v))
+    if isinstance(c, type):
+        if c is int and isinstance(v, bool):
+            return True
+        return isinstance(v, c) and not isinstance(v, Stub)
+    raise Unsupported("isinstance against an unknown class")
+
+
 def _attr(v, name, funcs, depth):
     if isinstance(v, Obj):
         d = vars(v)
@@ -65,12 +85,17 @@ def _attr(v, name, funcs, depth):
             fn = d["_methods"][name]
             if depth > 8:
                 raise Unsupported("call depth")
+            decos = {un(x) for x in fn.decorator_list}
+            if "staticmethod" in decos:
+                return lambda *a, **k: call(fn, list(a), k, funcs, depth + 1)
             if name in d.get("_props", ()):
                 return call(fn, [v], {}, funcs, depth + 1)
             return lambda *a, **k: call(fn, [v, *a], k, funcs, depth + 1)
         if name in d.get("_natives", {}):
             return d["_natives"][name]
         raise Unsupported(f"attribute `{name}` of the instance stub")
+    if isinstance(v, types.SimpleNamespace) and name in vars(v):
+        return vars(v)[name]
     return getattr(v, name)
 
 
@@ -160,6 +185,14 @@ def ev(n: ast.AST, env: dict[str, Any], funcs: dict[str, ast.FunctionDef] | None
     if isinstance(n, (ast.Tuple, ast.List)):
         vals = _starred(n.elts, env, funcs, depth)
         return tuple(vals) if isinstance(n, ast.Tuple) else vals
+    if isinstance(n, ast.Dict):
+        out_d: dict[Any, Any] = {}
+        for k, v in zip(n.keys, n.values):
+            if k is None:
+                out_d.update(ev(v, env, funcs, depth))
+            else:
+                out_d[ev(k, env, funcs, depth)] = ev(v, env, funcs, depth)
+        return out_d
     if isinstance(n, ast.JoinedStr):
         out = ""
         for v in n.values:
@@ -188,20 +221,35 @@ def ev(n: ast.AST, env: dict[str, Any], funcs: dict[str, ast.FunctionDef] | None
             return v[lo:hi:stp]
         return v[ev(n.slice, env, funcs, depth)]
     if isinstance(n, ast.Call):
-        if any(k.arg is None for k in n.keywords):
-            raise Unsupported("double-star arguments")
         args = _starred(n.args, env, funcs, depth)
-        kws = {k.arg: ev(k.value, env, funcs, depth) for k in n.keywords}
+        kws = {}
+        for k in n.keywords:
+            if k.arg is None:
+                mp = ev(k.value, env, funcs, depth)
+                if not isinstance(mp, dict):
+                    raise Unsupported("double-star argument that is not a dict")
+                kws.update(mp)
+            else:
+                kws[k.arg] = ev(k.value, env, funcs, depth)
         if isinstance(n.func, ast.Name):
             if n.func.id == "cast" and len(args) == 2:
                 return args[1]
             if n.func.id == "getattr" and len(args) in (2, 3) and isinstance(args[0], _OPEN) and isinstance(args[1], str):
                 return getattr(*args)
+            if n.func.id == "isinstance" and len(args) == 2:
+                return _isinstance(args[0], args[1])
+            if n.func.id == "dict" and len(args) <= 1:
+                return dict(*args, **kws)
+            tgt = env.get(n.func.id, (funcs.get("$globals") or {}).get(n.func.id) if isinstance(funcs.get("$globals"), dict) else None)
+            if isinstance(tgt, Obj):            # `cls(...)` inside a classmethod evaluated on an instance stub
+                return vars(tgt)["_ctor"](*args, **kws)
+            if isinstance(tgt, ClassStub):
+                return tgt(*args, **kws)
             if n.func.id == "type" and len(args) == 1 and isinstance(args[0], Obj):
                 return vars(args[0])["_ctor"]
             if n.func.id in _BUILTINS:
                 return _BUILTINS[n.func.id](*args, **kws)
-            if n.func.id in funcs and isinstance(funcs[n.func.id], ast.FunctionDef) and depth < 4:
+            if n.func.id in funcs and isinstance(funcs[n.func.id], ast.FunctionDef) and depth < 8:
                 return call(funcs[n.func.id], args, kws, funcs, depth + 1)
         if isinstance(n.func, ast.Call) or (isinstance(n.func, ast.Name) and callable(env.get(n.func.id)) and isinstance(env.get(n.func.id), types.FunctionType)):
             f = ev(n.func, env, funcs, depth)
@@ -211,6 +259,8 @@ def ev(n: ast.AST, env: dict[str, Any], funcs: dict[str, ast.FunctionDef] | None
             recv = ev(n.func.value, env, funcs, depth)
             if isinstance(recv, str) and n.func.attr in _STR_METHODS:
                 return getattr(recv, n.func.attr)(*args, **kws)
+            if isinstance(recv, float) and n.func.attr in ("as_integer_ratio", "is_integer"):
+                return getattr(recv, n.func.attr)()
             if isinstance(recv, _OPEN) or recv is _dt:
                 f = _attr(recv, n.func.attr, funcs, depth)
                 if callable(f):
